@@ -138,9 +138,9 @@ func poolRound(tw *traceWriter, r *rand.Rand, provider string, g, perG int) {
 							c.Dispatch(rec, hr)
 						}
 					}()
-					ok, decoded := decodeBody(rec.Header().Get("Content-Encoding"), rec.Body.Bytes())
+					ok, decoded := decodeBody(wireHeader(rec).Get("Content-Encoding"), rec.Body.Bytes())
 					want := append([]byte("payload-"+id+"-"), bytes.Repeat([]byte(id), 50)...)
-					good := ok && bytes.HasPrefix(decoded, want) && rec.Header().Get("Content-Encoding") == ae
+					good := ok && bytes.HasPrefix(decoded, want) && wireHeader(rec).Get("Content-Encoding") == ae
 					results[gi] = append(results[gi], result{good, "response " + id})
 				case 2: // gzip request body (sometimes corrupt)
 					body := gzipBytes([]byte(fmt.Sprintf(`{"id":"%s","data":"d%s"}`, id, id)))
